@@ -116,25 +116,20 @@ func c07Model(c c07Case, answer func(scheme string) bool) (parts []string, log [
 		sec = c07SecLists[c.docSec].val
 	}
 	if list, ok := sec.([]any); ok && len(list) > 0 {
+		// some requirement has all of its schemes accepted; which schemes are asked, in which order and whether the
+		// search stops early is the implementation's business: log lists the schemes that may be asked at all
 		passed := false
 		for _, rq := range list {
 			req := rq.(map[string]any)
-			names := sortedKeys(req)
 			ok := true
-			for _, n := range names {
-				if !c.authFunc {
-					ok = false
-					break
-				}
+			for _, n := range sortedKeys(req) {
 				log = append(log, n)
-				if !answer(n) {
+				if !c.authFunc || !answer(n) {
 					ok = false
-					break
 				}
 			}
 			if ok {
 				passed = true
-				break
 			}
 		}
 		if !passed {
@@ -215,11 +210,11 @@ func init() {
 		ID: "C07",
 		Rule: "operation security in {absent, [], [{}], [{A}], [{A,B}], [{A},{B}], [{A},{}], [{B,A},{A}]} (document security from the same set when the operation declares none) x AuthenticationFunc nil/set with every answer per call chosen when the callback is called " +
 			"x path-level parameters subset of {q1 required integer query, h1 required integer header} x operation parameters subset of {q1 string override, q2 optional integer, h1 as a query parameter, q1 as a header parameter (same name, other location)}, the operation's list in both orders x request values (absent/valid/invalid per parameter) x body {undeclared, valid, invalid, missing} " +
-			"x MultiError x ExcludeRequestBody x ExcludeRequestQueryParams. Truth-table model gives pass/fail, the multiset of failing parts (multi-error mode) and the callback log. non-trivial = at least one part is declared",
+			"x MultiError x ExcludeRequestBody x ExcludeRequestQueryParams. Truth-table model gives pass/fail, the multiset of failing parts (multi-error mode) and the set of schemes the callback may be asked about. non-trivial = at least one part is declared",
 		Assumptions: []string{
 			"truth-table model in mc/checks/c07.go follows the property statement: effective security, effective parameters (override by name AND location), exclusions, empty list/requirement need no authentication",
 			"in fail-first mode only pass/fail is compared; the identity of failing parts only in multi-error mode",
-			"callback log: requirements in order, schemes of a requirement in name order, stop at the first rejected scheme and at the first satisfied requirement",
+			"the authentication callback answers per scheme (both answers for each of the two schemes are explored); the order in which schemes are asked and whether the search stops early is not asserted, only that nothing outside the requirements in effect is asked",
 		},
 		Bounds:        func(tier string) map[string]any { return map[string]any{"security_lists": len(c07SecLists), "schemes": 2, "parameters": 5, "option_sets": 8} },
 		MinOutcomes:   2,
@@ -294,15 +289,26 @@ func init() {
 			if v := c07H1Values[c.h1]; v != "" {
 				req.Header.Set("h1", v)
 			}
-			answers := map[string][]bool{}
+			// the callback's answer is a function of the scheme, fixed before the call (the verdict must not depend on
+			// the order in which schemes are asked)
+			accepts := map[string]bool{"A": true, "B": true}
+			if c.authFunc {
+				_, inEffect := c07Model(c, func(string) bool { return true })
+				for _, n := range []string{"A", "B"} {
+					for _, e := range inEffect {
+						if e == n {
+							accepts[n] = x.Choose(2) == 0
+							break
+						}
+					}
+				}
+			}
 			var log []string
 			opts := &openapi3filter.Options{MultiError: c.multi, ExcludeRequestBody: c.exBody, ExcludeRequestQueryParams: c.exQuery}
 			if c.authFunc {
 				opts.AuthenticationFunc = func(_ context.Context, ai *openapi3filter.AuthenticationInput) error {
 					log = append(log, ai.SecuritySchemeName)
-					ok := x.Choose(2) == 0
-					answers[ai.SecuritySchemeName] = append(answers[ai.SecuritySchemeName], ok)
-					if !ok {
+					if !accepts[ai.SecuritySchemeName] {
 						return errors.New("rejected by the harness")
 					}
 					return nil
@@ -315,16 +321,7 @@ func init() {
 			if !r.Guard(x, "ValidateRequest", detail, func() { verr = openapi3filter.ValidateRequest(context.Background(), in) }) {
 				return
 			}
-			// replay the observed answers through the model (k-th call for a scheme gets the k-th answer)
-			idx := map[string]int{}
-			wantParts, wantLog := c07Model(c, func(s string) bool {
-				i := idx[s]
-				idx[s]++
-				if i < len(answers[s]) {
-					return answers[s][i]
-				}
-				return true // the model asks for a call the implementation never made: the log comparison reports it
-			})
+			wantParts, wantLog := c07Model(c, func(s string) bool { return accepts[s] })
 			r.Case(fmt.Sprintf("%s|%v", sig, x.Choices()), c.opSec+c.docSec > 0 || c.pathQ1 || c.pathH1 || c.opQ1 || c.opQ2 || c.body > 0)
 			r.Validated(1)
 			if r.WantSample(x) {
@@ -353,10 +350,15 @@ func init() {
 				fail("multi-error-parts-differ:" + partsDiff(wantParts, gotParts))
 				return
 			}
-			if c.multi || len(wantParts) == 0 {
-				// the log is comparable when validation did not stop early for another reason
-				if strings.Join(log, ",") != strings.Join(wantLog, ",") {
-					fail("authentication-callback-sequence")
+			// the callback is only ever asked about schemes of the security requirements in effect
+			allowed := map[string]bool{}
+			for _, n := range wantLog {
+				allowed[n] = true
+			}
+			for _, n := range log {
+				if !allowed[n] {
+					fail("authentication-callback-asked-about-a-scheme-not-in-effect:" + n)
+					break
 				}
 			}
 		},
